@@ -1,7 +1,7 @@
 //! The explicit, serialisable description of one simulated scenario. A replay file is a
 //! `Case`; `check(case)` is a pure function of it and of the code under test.
 
-use crate::world::{Delivery, Endless, Fault, FilePlan, SinkPlan};
+use crate::world::{Delivery, DirPlan, Endless, Fault, FilePlan, SinkPlan};
 use base64::Engine;
 use serde::{Deserialize, Deserializer, Serialize, Serializer};
 use std::collections::BTreeMap;
@@ -128,6 +128,10 @@ pub struct Case {
     /// the (i-1)-th and the i-th cut of the stream
     #[serde(default, skip_serializing_if = "Vec::is_empty")]
     pub files: Vec<FilePlan>,
+    /// listing plans of simulated directory arguments (hook H3); which files a directory
+    /// holds follows from the `layout` parameter of the case
+    #[serde(default, skip_serializing_if = "Vec::is_empty")]
+    pub dirs: Vec<DirPlan>,
     #[serde(default)]
     pub hash_seeds: Vec<u64>,
     #[serde(default)]
@@ -152,6 +156,7 @@ impl Case {
             err: SinkPlan::default(),
             endless: None,
             files: Vec::new(),
+            dirs: Vec::new(),
             hash_seeds: vec![0],
             params: BTreeMap::new(),
             strs: BTreeMap::new(),
